@@ -1,6 +1,8 @@
 package checks
 
 import (
+	"bytes"
+	"crypto/sha1"
 	"fmt"
 	"math/rand"
 	"strings"
@@ -93,6 +95,7 @@ func runMrz(zone string) (res mrzReal) {
 			res.r2ok, res.r2 = true, mrzCodes(p.Password)
 			if k, err := p.Key(); err == nil {
 				res.k2 = core.Hex(k)
+				wipe(k) // the caller owns the key it was handed: wiping it after use must not reach any later key
 			}
 		}
 		if s, err := d.EncodeMrzi(); err == nil {
@@ -103,9 +106,58 @@ func runMrz(zone string) (res mrzReal) {
 		res.r1ok, res.r1 = true, mrzCodes(p.Password)
 		if k, err := p.Key(); err == nil {
 			res.k1 = core.Hex(k)
+			wipe(k)
 		}
 	}
 	return
+}
+
+func wipe(b []byte) {
+	for i := range b {
+		b[i] = 0
+	}
+}
+
+// c18KeyIsAValue: the key seed handed to a caller is the caller's: wiping it, or deriving session keys in place
+// (append(k[:16], 0, 0, 0, 1)), leaves every later key of the same or another document what SHA-1 of its MRZ
+// information says - whatever route it is obtained by, in one sequential history of calls.
+func c18KeyIsAValue(c *core.Ctx) {
+	infos := []string{"L898902C<369080619406236", "D23145890734<3408125120415", "AB<12345<<7740812<1204159", "L898902C<369080619406236"}
+	zone := "P<UTOERIKSSON<<ANNA<MARIA<<<<<<<<<<<<<<<<<<<L898902C36UTO7408122F1204159ZE184226B<<<<<10"
+	n := 0
+	check := func(step string, k []byte, info string) {
+		n++
+		want := sha1.Sum([]byte(info))
+		c.Case("key-value/"+step, true)
+		if !bytes.Equal(k, want[:16]) && !bytes.Equal(k, want[:]) {
+			c.Violation("C18:key-depends-on-earlier-callers", fmt.Sprintf("after an earlier caller wiped / re-used the key it had been handed, Key() for MRZ information %q is %x, SHA-1 gives %x (%s)", info, k, want, step), map[string]any{"step": step, "mrzi": info})
+		}
+	}
+	for round := 0; round < 3; round++ {
+		for i, info := range infos {
+			p := &password.Password{PasswordType: password.PASSWORD_TYPE_MRZi, Password: info}
+			k, err := p.Key()
+			if err != nil {
+				continue
+			}
+			check(fmt.Sprintf("mrzi/%d/%d", round, i), k, info)
+			switch (round + i) % 3 {
+			case 0:
+				wipe(k)
+			case 1:
+				if len(k) >= 16 {
+					_ = append(k[:16], 0, 0, 0, 1) // in-place key derivation input
+				}
+			}
+		}
+		if p, err := password.NewPasswordMrz(zone); err == nil {
+			if k, err := p.Key(); err == nil {
+				check(fmt.Sprintf("zone/%d", round), k, "L898902C3674081221204159")
+				wipe(k)
+			}
+		}
+	}
+	c.Extra["key_value_history_steps"] = n
 }
 
 func eqInts(a, b []int) bool {
@@ -215,6 +267,7 @@ func C18(c *core.Ctx) {
 	c.Extra["generated_zones"] = n
 	c.Extra["generated_zones_accepted_by_real_decoder"] = acc
 	c.AddTraces(int64(n))
+	c18KeyIsAValue(c)
 	for _, rj := range tr.Rejected {
 		i := rj[0].(int) - 1
 		why := core.Str(rj[1])
